@@ -10,7 +10,7 @@ W   who-may-write: slot stores into data[TIME_STEP_SOLUTIONS|ITERATE_SOLUTIONS][
 R2  the in-place additive write is dominated by the membership test that raises
 R3  shift direction, lower end and depth cap of the shift loop
 R4  model depth pairing (time<->time_step_indices, iterate<->iterate_indices) and
-    shift-before-write order in the hooks (thorough: every shift call site in src/porepy)
+    shift-before-write order in the hooks and at every shift call site in src/porepy
 R5  index-kind wiring (location constant <-> index parameter) through the helper layers
 """
 from __future__ import annotations
@@ -51,8 +51,8 @@ META = {
         "its start is exactly num_stored (growing / uncapped arms) resp. max_index-1 (capped arm), by linear-form "
         "comparison of the range() arguments under the enclosing branch conditions. R4: the model hooks pass "
         "len(self.time_step_indices) to the time shift and len(self.iterate_indices) to the iterate shift and the "
-        "shift dominates (and is post-dominated by) the write to index 0; thorough tier: the same kind pairing and "
-        "order at every shift call site of src/porepy. R5: location constants are paired with the index parameter of "
+        "shift dominates (and is post-dominated by) the write to index 0; the same kind pairing and "
+        "order is checked at every shift call site of src/porepy. R5: location constants are paired with the index parameter of "
         "the same kind in _validate_indices and forwarded name-to-name through the EquationSystem wrappers. "
         "Not decided: the sliding-window equality for concrete interleavings of set/shift/get, contiguity of the "
         "stored index set, and aliasing created by callers that read the data dictionary directly."),
@@ -66,7 +66,7 @@ META = {
                     "dict iteration / len(data[loc][name]) reflects a contiguous index set 0..n-1"],
     "technique": "AST dataflow (freshness table, def-use inlining) + statement-CFG dominance + linear-form comparison",
 }
-MIN_INSTANCES = {"R1": 4, "W": 6, "R2": 3, "R3": 8, "R4": 6, "R5": 12}
+MIN_INSTANCES = {"R1": 4, "W": 6, "R2": 3, "R3": 8, "R4": 20, "R5": 12}
 
 
 # ------------------------------------------------------------------ generic helpers
@@ -551,6 +551,13 @@ def _rule_guard(ctx: Ctx, adu) -> None:
         ctx.check("R2", ok, adu, "set_solution_values", s,
                   "the in-place `+=` must be reachable exactly when additive is true",
                   construct=f"{u(t)} += ... under additive", facts={"additive=True": str(env_true), "additive=False": str(env_false)})
+    raises = g.nodes_of(lambda x: isinstance(x, ast.Raise))
+    late = [(u(t), u(g.stmt[r].exc)[:50] if g.stmt[r].exc is not None else "raise") for s, t in stores for r in raises
+            if g.reachable(g.node_for(s), r)]
+    if late:
+        ctx.note("set_solution_values: an explicit raise is reachable after a slot has already been written (loop over "
+                 "(location, index) pairs): a rejected call can leave a partial write, e.g. additive=True with both indices "
+                 f"given and only the first slot present: {late[:2]}")
     for s, t in plains:
         env_true = [_ev(test, {flag: True}) if pol else _neg(_ev(test, {flag: True})) for test, pol in _path_conds(pm, s, fn)]
         env_false = [_ev(test, {flag: False}) if pol else _neg(_ev(test, {flag: False})) for test, pol in _path_conds(pm, s, fn)]
@@ -859,7 +866,7 @@ def _rule_model_pairing(ctx: Ctx, sol, eqs) -> None:
 
 
 def _rule_shift_sites_sweep(ctx: Ctx, loc: _Loc, adu, eqs) -> None:
-    """Thorough tier: kind pairing and order at every shift call site of src/porepy."""
+    """Kind pairing and order at every shift call site of src/porepy."""
     shift_fn_params = _params(adu.func("shift_solution_values"))
     set_fn_params = _params(adu.func("set_solution_values"))
     set_var_params = _params(eqs.func("EquationSystem.set_variable_values"))
@@ -993,8 +1000,7 @@ def run(ctx: Ctx) -> None:
     _rule_shift(ctx, adu)
     _rule_model_pairing(ctx, sol, eqs)
     _rule_wiring(ctx, loc, adu, eqs)
-    if ctx.tier == "thorough":
-        _rule_shift_sites_sweep(ctx, loc, adu, eqs)
+    _rule_shift_sites_sweep(ctx, loc, adu, eqs)
 
 
 def _m(name, file, old, new, rule, control=False, count=1):
@@ -1049,6 +1055,20 @@ MUTANTS = [
     _m("depth-off-by-one", SOLSTRAT,
        "        self.equation_system.shift_time_step_values(\n            max_index=len(self.time_step_indices)\n        )",
        "        self.equation_system.shift_time_step_values(\n            max_index=len(self.time_step_indices) - 1\n        )", "R4",),
+    _m("uncapped-shift-loses-oldest", AD_UTILS, "    else:\n        range_ = range(num_stored, 0, -1)\n",
+       "    else:\n        range_ = range(num_stored - 1, 0, -1)\n", "R3"),
+    _m("bc-history-capped-by-iterate-depth", BC, "                max_index=len(self.time_step_indices),\n",
+       "                max_index=len(self.iterate_indices),\n", "R4"),
+    _m("damage-history-capped-by-iterate-depth", FD, "            max_index=None, variables=history_variables\n",
+       "            max_index=len(self.iterate_indices), variables=history_variables\n", "R4"),
+    _m("bc-previous-value-overwritten-before-shift", BC,
+       "            pp.shift_solution_values(\n                name=name,\n                data=data,\n                location=pp.TIME_STEP_SOLUTIONS,\n"
+       "                max_index=len(self.time_step_indices),\n            )\n            # Set the values of current time to most recent previous time.\n"
+       "            pp.set_solution_values(name=name, values=vals, data=data, time_step_index=0)\n",
+       "            # Set the values of current time to most recent previous time.\n"
+       "            pp.set_solution_values(name=name, values=vals, data=data, time_step_index=0)\n"
+       "            pp.shift_solution_values(\n                name=name,\n                data=data,\n                location=pp.TIME_STEP_SOLUTIONS,\n"
+       "                max_index=len(self.time_step_indices),\n            )\n", "R4"),
     _m("wrapper-shifts-wrong-history", EQSYS,
        "                var.name, self._get_data(var.domain), pp.ITERATE_SOLUTIONS, max_index\n",
        "                var.name, self._get_data(var.domain), pp.TIME_STEP_SOLUTIONS, max_index\n", "R5"),
